@@ -564,3 +564,442 @@ Proof.
   rewrite (RainIrrR.irr_cum_update _ _ _ _ _ _ _ _ _ _ _ _ _ _ _ _ _ _ _ _ _ _ _ _ _ _ _ V Eg).
   rewrite (RainIrrR.irr_net_zero _ _ _ _ _ _ _ _ _ _ _ _ _ _ _ _ _ _ _ _ _ _ _ _ _ _ _ V M). lra.
 Qed.
+
+(* seasonal totals (C06 / C13): in the season the counter that the summary row reports advances by exactly the IrrDay
+   column of the day — the applied irrigation for strategies 0,1,2,3,5, the net requirement incl. pre-irrigation for 4 *)
+Theorem day_irr_totals_concrete par crops season gs dap tsc w s s' row :
+  day_proc_opt par (procs_concrete crops) season gs dap tsc w s = Some (s', row) -> gs = true ->
+  let irr := sel_irr par season in let f := r_flux row in
+  (i_method irr <> 4%Z -> d_irr_cum s' = d_irr_cum s + fl_IrrDay f) /\
+  (i_method irr = 4%Z -> d_irr_net_cum s' = d_irr_net_cum s + fl_IrrDay f).
+Proof.
+  intros H Eg. cbv zeta.
+  destruct (day_proc_opt_total _ _ _ _ _ _ _ _ _ _ H) as (_ & Rs & HR & _ & -> & ->).
+  split.
+  - intros N. rewrite (irrday_not4 par crops season gs dap tsc w s Rs HR N).
+    exact (RainIrrR.irr_cum_update _ _ _ _ _ _ _ _ _ _ _ _ _ _ _ _ _ _ _ _ _ _ _ _ _ _ _ (v_ir par crops season gs dap tsc w s Rs HR) Eg).
+  - intros M. cbn [state_of d_irr_net_cum row_of r_flux fl_IrrDay]. unfold irrday_of, irrnet_of. cbn [x_gs ctx].
+    change (x_irr (ctx par season gs dap tsc w s)) with (sel_irr par season). rewrite Eg.
+    pose proof (so_tr _ _ _ (results_opt_spec _ _ _ HR)) as S13. cbn [procs_concrete po_tr] in S13.
+    destruct (ctr_call_cum _ _ _ _ S13) as (o & E & E1 & E2).
+    cbn [t_tr trace_of arg_tr trA_method trA_gs x_gs ctx] in E.
+    change (x_irr (ctx par season gs dap tsc w s)) with (sel_irr par season) in E. rewrite M, Eg in E.
+    pose proof (irr_net_cum_update _ _ _ _ _ _ _ _ _ _ E) as U. cbn [tr_state Transpiration.s_irr_net_cum trA_irr_net_cum arg_tr x_s ctx] in U.
+    apply Z.eqb_eq in M. rewrite M. rnum. rewrite E1, E2, U. lra.
+Qed.
+
+(* ---- C05: growing degree days ------------------------------------------------------------------------------------ *)
+Theorem day_gdd_concrete par crops season gs dap tsc w s s' row :
+  day_proc_opt par (procs_concrete crops) season gs dap tsc w s = Some (s', row) ->
+  let g := r_growth row in let crop := sel_crop par season in
+  (gs = true -> c_Tbase crop <= c_Tupp crop -> 0 <= gr_gdd g <= c_Tupp crop - c_Tbase crop) /\
+  (gs = true -> gr_gdd_cum g = d_gdd_cum s + gr_gdd g) /\
+  d_gdd_cum s' = gr_gdd_cum g /\
+  (gs = true -> c_Tbase crop <= c_Tupp crop -> d_gdd_cum s <= d_gdd_cum s') /\
+  (gs = false -> gr_gdd g = 3 / 10 /\ gr_gdd_cum g = 0 /\ d_gdd_cum s' = 0).
+Proof.
+  intros H. cbv zeta.
+  destruct (day_proc_opt_total _ _ _ _ _ _ _ _ _ _ H) as (_ & Rs & HR & _ & -> & ->).
+  cbn [row_of r_growth gr_gdd gr_gdd_cum state_of d_gdd_cum]. unfold gdd_cum_of. cbn [x_gs ctx x_s].
+  assert (G : gs = true -> c_Tbase (sel_crop par season) <= c_Tupp (sel_crop par season) ->
+              0 <= rs_gdd Rs <= c_Tupp (sel_crop par season) - c_Tbase (sel_crop par season)).
+  { intros Eg Hb. exact (KernelsR.gdd_range _ _ _ _ _ _ Hb (v_gd par crops season gs dap tsc w s Rs HR Eg)). }
+  split; [exact G|].
+  split; [intros ->; rnum; reflexivity|].
+  split; [reflexivity|].
+  split; [intros Eg Hb; specialize (G Eg Hb); rewrite Eg; rnum; lra|].
+  intros Eg. rewrite (v_gdd_off par crops season gs dap tsc w s Rs HR Eg), Eg. rnum. repeat split; reflexivity.
+Qed.
+
+(* ---- C06: yields and biomass ------------------------------------------------------------------------------------- *)
+Theorem day_yield_concrete par crops season gs dap tsc w s s' row :
+  day_proc_opt par (procs_concrete crops) season gs dap tsc w s = Some (s', row) ->
+  let g := r_growth row in let f := r_flux row in let crop := sel_crop par season in let c := cf_y (crops (c_id crop)) in
+  gr_Pot g = gr_B_ns g / 100 * gr_HI g /\
+  (gs = true -> gr_Dry g = gr_B g / 100 * gr_HIadj g /\ gr_Fresh g = gr_Dry g / (c_YldWC crop / 100)) /\
+  (gs = false -> gr_Dry g = 0 /\ gr_Fresh g = 0) /\
+  (* the state carries exactly the row's values *)
+  d_biomass s' = gr_B g /\ d_biomass_ns s' = gr_B_ns g /\ d_DryYield s' = gr_Dry g /\ d_FreshYield s' = gr_Fresh g /\ d_YieldPot s' = gr_Pot g /\
+  (* biomass gain (YieldR.biomass_gain; its two side conditions on PctLagPhase / HIref follow from the range of PctLagPhase
+     before the day, which the day preserves) *)
+  (0 <= d_pct_lag_phase s <= 100 -> 0 <= d_pct_lag_phase s' <= 100) /\
+  (gs = true -> 0 <= d_pct_lag_phase s <= 100 -> Yield.y_WPy c <= 100 ->
+     exists k, Yield.y_WPy c / 100 <= k <= 1 /\
+               gr_B g - d_biomass s = Yield.y_WP c * Yield.y_fCO2 c * (fl_Tr f / w_et0 w) * k /\
+               exists trpot_ns, gr_B_ns g - d_biomass_ns s = Yield.y_WP c * Yield.y_fCO2 c * (trpot_ns / w_et0 w) * k) /\
+  (* biomass never decreases within the season *)
+  (gs = true -> 0 <= d_pct_lag_phase s <= 100 -> 0 <= Yield.y_WPy c <= 100 -> 0 <= Yield.y_WP c -> 0 <= Yield.y_fCO2 c ->
+     0 <= fl_Tr f -> 0 < w_et0 w -> d_biomass s <= gr_B g).
+Proof.
+  intros H. cbv zeta.
+  destruct (day_proc_opt_total _ _ _ _ _ _ _ _ _ _ H) as (_ & Rs & HR & _ & -> & ->).
+  cbn [row_of r_growth r_flux gr_Pot gr_B_ns gr_HI gr_Dry gr_B gr_HIadj gr_Fresh fl_Tr state_of d_biomass d_biomass_ns d_DryYield d_FreshYield
+       d_YieldPot d_pct_lag_phase].
+  unfold ypot_of, dry_of, fresh_of, dry_of. cbn [x_gs ctx]. change (x_crop (ctx par season gs dap tsc w s)) with (sel_crop par season).
+  set (c := cf_y (crops (c_id (sel_crop par season)))).
+  pose proof (v_hr par crops season gs dap tsc w s Rs HR) as VH. fold c in VH.
+  pose proof (v_bm par crops season gs dap tsc w s Rs HR) as VB. fold c in VB.
+  assert (Hpct : 0 <= d_pct_lag_phase s <= 100 -> 0 <= hrR_pct (rs_hr Rs) <= 100).
+  { intros Hp. pose proof (YieldR.pct_lag_range c (d_hi_ref s) (d_HIfinal s) dap (geR_dcd (rs_ge Rs)) (d_yield_form s) (d_pct_lag_phase s)
+                             (trR_cc (rs_tr Rs)) (ccR_ccx_w (rs_cc Rs)) gs Hp) as Q. rewrite VH in Q. exact Q. }
+  assert (Hhit : 0 < hrR_hiref (rs_hr Rs) -> 0 <= Yield.hit c dap (geR_dcd (rs_ge Rs))).
+  { intros Hh. pose proof (YieldR.hiref_pos_hit c (d_hi_ref s) (d_HIfinal s) dap (geR_dcd (rs_ge Rs)) (d_yield_form s) (d_pct_lag_phase s)
+                             (trR_cc (rs_tr Rs)) (ccR_ccx_w (rs_cc Rs)) gs) as Q. rewrite VH in Q. cbn [fst] in Q. specialize (Q Hh). lra. }
+  assert (Hgain : gs = true -> 0 <= d_pct_lag_phase s <= 100 -> Yield.y_WPy c <= 100 ->
+     exists k, Yield.y_WPy c / 100 <= k <= 1 /\
+               bmR_b (rs_bm Rs) - d_biomass s = Yield.y_WP c * Yield.y_fCO2 c * (trR_tr (rs_tr Rs) / w_et0 w) * k /\
+               bmR_bns (rs_bm Rs) - d_biomass_ns s = Yield.y_WP c * Yield.y_fCO2 c * (trR_trpot_ns (rs_tr Rs) / w_et0 w) * k).
+  { intros Eg Hp Hw. rewrite Eg in VB. exact (YieldR.biomass_gain _ _ _ _ _ _ _ _ _ _ _ _ VB (Hpct Hp) Hhit Hw). }
+  split; [rnum; reflexivity|].
+  split; [intros ->; rnum; split; reflexivity|].
+  split; [intros ->; rnum; split; reflexivity|].
+  do 5 (split; [reflexivity|]).
+  split; [exact Hpct|].
+  split.
+  { intros Eg Hp Hw. destruct (Hgain Eg Hp Hw) as (k & K1 & K2 & K3). exists k. split; [exact K1|]. split; [exact K2|].
+    exists (trR_trpot_ns (rs_tr Rs)). exact K3. }
+  intros Eg Hp Hw HWP HfC HTr Het.
+  destruct (Hgain Eg Hp (proj2 Hw)) as (k & K1 & K2 & _).
+  assert (0 <= trR_tr (rs_tr Rs) / w_et0 w) by (apply Rmult_le_pos; [lra | left; apply Rinv_0_lt_compat; lra]).
+  assert (0 <= k) by lra.
+  assert (0 <= Yield.y_WP c * Yield.y_fCO2 c * (trR_tr (rs_tr Rs) / w_et0 w) * k)
+    by (apply Rmult_le_pos; [apply Rmult_le_pos; [apply Rmult_le_pos|]|]; assumption).
+  lra.
+Qed.
+
+(* ---- C19: shallow groundwater ------------------------------------------------------------------------------------ *)
+Theorem day_groundwater_concrete par crops season gs dap tsc w s s' row :
+  DayInv par s ->
+  day_proc_opt par (procs_concrete crops) season gs dap tsc w s = Some (s', row) ->
+  let prof := so_prof (p_soil par) in let f := r_flux row in
+  (* adjusted field capacity between field capacity and saturation; the storage row holds the end-of-day water contents *)
+  fcadj_ok prof (d_th_fc_Adj s') /\ st_th (r_sto row) = d_th s' /\ fl_zgw f = d_z_gw s' /\
+  (* no water table: no capillary rise, no groundwater inflow, field capacity not adjusted, no depth reported *)
+  (p_water_table par = 0%Z -> fl_CR f = 0 /\ fl_GwIn f = 0 /\ d_th_fc_Adj s' = d_th_fc_Adj s /\ fl_zgw f = None) /\
+  (* water table: the depth reported is the day's observation, and (given the side conditions of the day, which keep the
+     water contents within bounds up to the inflow step) every compartment centred at or below the table ends saturated *)
+  (p_water_table par = 1%Z -> fl_zgw f = Some (w_gw w) /\ 0 <= w_gw w) /\
+  (p_water_table par = 1%Z ->
+   (forall Rs, results_opt (ctx par season gs dap tsc w s) (procs_concrete crops) = Some Rs -> DaySide par crops season gs dap tsc w s Rs) ->
+   Forall2 (fun c t => w_gw w <= c_zmid c -> t = c_th_s c) prof (d_th s') /\
+   Forall2 (fun c t => w_gw w <= c_zmid c -> t = c_th_s c) prof (st_th (r_sto row))).
+Proof.
+  intros Inv H. cbv zeta.
+  destruct (day_proc_opt_total _ _ _ _ _ _ _ _ _ _ H) as (_ & Rs & HR & _ & -> & ->).
+  cbn [row_of r_sto st_th r_flux fl_zgw fl_CR fl_GwIn state_of d_th d_th_fc_Adj d_z_gw].
+  pose proof (so_gw _ _ _ (results_opt_spec _ _ _ HR)) as S1. cbn [procs_concrete po_gw] in S1.
+  set (x := ctx par season gs dap tsc w s) in *.
+  split; [exact (b_fc par crops season gs dap tsc w s Rs HR Inv)|].
+  split; [reflexivity|]. split; [reflexivity|].
+  split.
+  { intros W0. destruct (c19_no_table par crops season gs dap tsc w s Rs HR W0) as [A B].
+    assert (N1 : gwA_wt (t_gw (trace_of x Rs)) <> 1%Z) by (cbn; unfold x_wt; cbn; rewrite W0; discriminate).
+    destruct (cgw_call_notable (x_prof x) (t_gw (trace_of x Rs)) (rs_gw Rs) N1 S1) as (G1 & _ & G3).
+    split; [exact A|]. split; [exact B|]. split; [exact G1|exact G3]. }
+  split.
+  { intros W1. assert (E1 : gwA_wt (t_gw (trace_of x Rs)) = 1%Z) by exact W1.
+    destruct (cgw_call_table (x_prof x) (t_gw (trace_of x Rs)) (rs_gw Rs) E1 S1) as (_ & G2 & G3). split; [exact G2|exact G3]. }
+  intros W1 Side. specialize (Side Rs HR).
+  pose proof (c19_saturated par crops season gs dap tsc w s Rs HR W1 (proj1 (b_tr par crops season gs dap tsc w s Rs HR Inv Side))) as F.
+  split; exact F.
+Qed.
+
+(* ============================================================================================================ *)
+(*  Part D: whole runs                                                                                           *)
+(* ============================================================================================================ *)
+(* the conclusions of the day theorems as predicates of (season, in-season?, dap, step, weather, state before, state after,
+   row) — word for word the conclusions above (the proofs below are [exact (day_..._concrete ...)]) *)
+Section RowPredicates.
+  Variables (par : DPar R) (crops : Z -> CropFull R) (season : Z) (gs : bool) (dap tsc : Z) (w : Day.W R) (s s' : DState R) (row : DRow R).
+
+  Definition fluxes_row : Prop :=
+    let f := r_flux row in let irr := sel_irr par season in let crop := sel_crop par season in
+    (i_method irr <> 4%Z -> 0 <= fl_IrrDay f) /\
+    (i_method irr = 4%Z -> 1 / 100 <= c_Zmin crop ->
+     - (1 / 100) * INR (Transpiration.tr_comp_sto (so_prof (p_soil par)) (Transpiration.tr_rootdepth (gr_z_root (r_growth row)) (c_Zmin crop)))
+     <= fl_IrrDay f) /\
+    0 <= fl_Runoff f /\ 0 <= fl_DeepPerc f /\ 0 <= fl_CR f /\ 0 <= fl_GwIn f /\
+    0 <= fl_EsPot f /\ 0 <= fl_Es f <= fl_EsPot f /\ 0 <= fl_TrPot f /\ 0 <= fl_Tr f <= fl_TrPot f.
+
+  Definition surface_row : Prop :=
+    let f := r_flux row in let field := sel_field par season gs in
+    let applied := surface_irr par season row * (i_AppEff (sel_irr par season) / 100) in
+    fl_Infl f + fl_Runoff f = w_rain w + applied /\
+    0 <= fl_Runoff f <= w_rain w + applied + d_surface_storage s /\
+    (fl_Infl f < 0 ->
+       (f_bunds field = false \/ f_z_bund field <= 1 / 1000 \/ f_z_bund field < d_surface_storage s) /\
+       0 < d_surface_storage s /\ - d_surface_storage s <= fl_Infl f) /\
+    (d_surface_storage s <= zb_of field \/ zb_of field = 0 -> fl_Infl f < 0 -> f_bunds field = false \/ f_z_bund field <= 1 / 1000) /\
+    (w_rain w = 0 -> surface_irr par season row = 0 -> d_surface_storage s = 0 -> fl_Infl f = 0 /\ fl_Runoff f = 0) /\
+    0 <= surface_irr par season row /\ (gs = false -> surface_irr par season row = 0).
+
+  Definition irrigation_row : Prop :=
+    let irr := sel_irr par season in let crop := sel_crop par season in let f := r_flux row in
+    let capped := RainIrrR.capped (i_MaxIrrSeason irr) (d_irr_cum s) in
+    (gs = false -> fl_IrrDay f = 0 /\ d_irr_cum s' = 0) /\
+    (i_method irr = 0%Z -> fl_IrrDay f = 0) /\
+    (i_method irr <> 4%Z -> 0 <= fl_IrrDay f /\ (0 <= i_MaxIrr irr -> fl_IrrDay f <= i_MaxIrr irr)) /\
+    (0 <= i_MaxIrrSeason irr -> d_irr_cum s <= i_MaxIrrSeason irr -> d_irr_cum s' <= i_MaxIrrSeason irr) /\
+    (gs = true -> d_irr_cum s <= i_MaxIrrSeason irr -> d_irr_cum s' <= i_MaxIrrSeason irr) /\
+    (gs = true -> d_irr_cum s' = d_irr_cum s + surface_irr par season row) /\
+    (gs = true -> i_method irr = 2%Z -> 0 < fl_IrrDay f -> i_IrrInterval irr <> 0%Z /\ ((dap - 1) mod i_IrrInterval irr = 0)%Z) /\
+    (gs = true -> i_method irr = 3%Z ->
+       exists v, RainIrr.py_index (i_Schedule irr) tsc = Some v /\ 0 <= v /\ fl_IrrDay f = capped (Rmin (i_MaxIrr irr) v) /\
+                 (0 <= i_MaxIrr irr -> d_irr_cum s + Rmin (i_MaxIrr irr) v <= i_MaxIrrSeason irr -> fl_IrrDay f = Rmin (i_MaxIrr irr) v)) /\
+    (gs = true -> i_method irr = 5%Z ->
+       fl_IrrDay f = capped (Rmin (i_MaxIrr irr) (i_depth irr)) /\
+       (0 <= i_MaxIrr irr -> 0 <= i_depth irr -> d_irr_cum s + Rmin (i_MaxIrr irr) (i_depth irr) <= i_MaxIrrSeason irr ->
+        fl_IrrDay f = Rmin (i_MaxIrr irr) (i_depth irr))) /\
+    (gs = true -> i_method irr = 1%Z ->
+       exists th_dr ro depl taw thr,
+         day_irr_inputs par season gs w s s' th_dr ro /\
+         RainIrr.irr_depletion (so_prof (p_soil par)) (gr_z_root (r_growth row)) th_dr (so_z_top (p_soil par)) (c_Zmin crop) (c_Aer crop)
+                               (d_t_pot s) (d_e_pot s) (w_rain w) ro = Some (depl, taw) /\
+         RainIrr.py_index (i_SMT irr) (RainIrrR.irr_stage dap (d_growth_stage s) - 1) = Some thr /\
+         (1 - thr / 100 < depl / taw ->
+            fl_IrrDay f = capped (Rmin (i_MaxIrr irr) (Rmax 0 depl * ((100 - i_AppEff irr + 100) / 100)))) /\
+         (depl / taw <= 1 - thr / 100 -> fl_IrrDay f = 0) /\
+         (0 < fl_IrrDay f -> 1 - thr / 100 < depl / taw /\ 0 < depl)) /\
+    (gs = true -> i_method irr = 4%Z -> d_irr_cum s' = d_irr_cum s).
+
+  Definition totals_row : Prop :=
+    let irr := sel_irr par season in let f := r_flux row in
+    gs = true ->
+    (i_method irr <> 4%Z -> d_irr_cum s' = d_irr_cum s + fl_IrrDay f) /\
+    (i_method irr = 4%Z -> d_irr_net_cum s' = d_irr_net_cum s + fl_IrrDay f).
+
+  Definition gdd_row : Prop :=
+    let g := r_growth row in let crop := sel_crop par season in
+    (gs = true -> c_Tbase crop <= c_Tupp crop -> 0 <= gr_gdd g <= c_Tupp crop - c_Tbase crop) /\
+    (gs = true -> gr_gdd_cum g = d_gdd_cum s + gr_gdd g) /\
+    d_gdd_cum s' = gr_gdd_cum g /\
+    (gs = true -> c_Tbase crop <= c_Tupp crop -> d_gdd_cum s <= d_gdd_cum s') /\
+    (gs = false -> gr_gdd g = 3 / 10 /\ gr_gdd_cum g = 0 /\ d_gdd_cum s' = 0).
+
+  Definition yield_row : Prop :=
+    let g := r_growth row in let f := r_flux row in let crop := sel_crop par season in let c := cf_y (crops (c_id crop)) in
+    gr_Pot g = gr_B_ns g / 100 * gr_HI g /\
+    (gs = true -> gr_Dry g = gr_B g / 100 * gr_HIadj g /\ gr_Fresh g = gr_Dry g / (c_YldWC crop / 100)) /\
+    (gs = false -> gr_Dry g = 0 /\ gr_Fresh g = 0) /\
+    d_biomass s' = gr_B g /\ d_biomass_ns s' = gr_B_ns g /\ d_DryYield s' = gr_Dry g /\ d_FreshYield s' = gr_Fresh g /\ d_YieldPot s' = gr_Pot g /\
+    (0 <= d_pct_lag_phase s <= 100 -> 0 <= d_pct_lag_phase s' <= 100) /\
+    (gs = true -> 0 <= d_pct_lag_phase s <= 100 -> Yield.y_WPy c <= 100 ->
+       exists k, Yield.y_WPy c / 100 <= k <= 1 /\
+                 gr_B g - d_biomass s = Yield.y_WP c * Yield.y_fCO2 c * (fl_Tr f / w_et0 w) * k /\
+                 exists trpot_ns, gr_B_ns g - d_biomass_ns s = Yield.y_WP c * Yield.y_fCO2 c * (trpot_ns / w_et0 w) * k) /\
+    (gs = true -> 0 <= d_pct_lag_phase s <= 100 -> 0 <= Yield.y_WPy c <= 100 -> 0 <= Yield.y_WP c -> 0 <= Yield.y_fCO2 c ->
+       0 <= fl_Tr f -> 0 < w_et0 w -> d_biomass s <= gr_B g).
+
+  Definition groundwater_row : Prop :=
+    let prof := so_prof (p_soil par) in let f := r_flux row in
+    fcadj_ok prof (d_th_fc_Adj s') /\ st_th (r_sto row) = d_th s' /\ fl_zgw f = d_z_gw s' /\
+    (p_water_table par = 0%Z -> fl_CR f = 0 /\ fl_GwIn f = 0 /\ d_th_fc_Adj s' = d_th_fc_Adj s /\ fl_zgw f = None) /\
+    (p_water_table par = 1%Z -> fl_zgw f = Some (w_gw w) /\ 0 <= w_gw w) /\
+    (p_water_table par = 1%Z ->
+     Forall2 (fun c t => w_gw w <= c_zmid c -> t = c_th_s c) prof (d_th s') /\
+     Forall2 (fun c t => w_gw w <= c_zmid c -> t = c_th_s c) prof (st_th (r_sto row))).
+End RowPredicates.
+
+Section RunRows.
+  Variables (par : DPar R) (crops : Z -> CropFull R).
+
+  Notation PO := (procs_concrete crops).
+  Notation procc := (proc_c par crops).
+  Notation defc := (defined_c par crops).
+  Notation EvC := (Ev (DState R) (Day.W R) (DRow R)).
+  Notation is_day_c := (is_day (DState R) (Day.W R) (DRow R) procc defc).
+  Notation ReachC := (Reach (DState R) (Day.W R) (DRow R) (DOut R) procc dead (matured par) (summary_of par) (reset par) defc).
+  Notation eventc := (event_of (DState R) (Day.W R) (DRow R) procc dead).
+
+  (* static hypotheses on the parameters: effective curve number of both field managements in (0,100]; the seasonal
+     irrigation maximum is not negative *)
+  Hypothesis Hcn : cn_ok par.
+  Hypothesis Hmaxseason : 0 <= i_MaxIrrSeason (p_irr par).
+
+  Section WithInv.
+    Variable Inv : DState R -> Prop.
+    Variable WP : Day.W R -> Prop.
+    Hypothesis Inv_dayinv : forall s, Inv s -> DayInv par s.
+    Hypothesis Inv_side : forall season gs dap tsc w s Rs, Inv s -> WP w ->
+      results_opt (ctx par season gs dap tsc w s) PO = Some Rs -> DaySide par crops season gs dap tsc w s Rs.
+    Hypothesis Inv_step : forall season gs dap tsc w s s' row, Inv s -> WP w ->
+      day_proc_opt par PO season gs dap tsc w s = Some (s', row) -> Inv s'.
+    Hypothesis Inv_reset : forall k ws s, Inv s -> Inv (reset par k ws s).
+    (* weather facts *)
+    Hypothesis WP_rain : forall w, WP w -> 0 <= w_rain w.
+
+    (* the invariant of the run: the caller's invariant, PctLagPhase within [0,100] (side condition of the biomass-gain
+       identity) and the seasonal irrigation counter within the seasonal maximum *)
+    Definition RowsInv (s : DState R) : Prop :=
+      Inv s /\ 0 <= d_pct_lag_phase s <= 100 /\ d_irr_cum s <= i_MaxIrrSeason (p_irr par).
+
+    (* what one day of a run establishes about the row it writes *)
+    Record rows_day (e : EvC) : Prop := {
+      rd_gs_season : e_gs _ _ _ e = true -> (0 <= e_season _ _ _ e)%Z;
+      rd_pct_pre : 0 <= d_pct_lag_phase (e_pre _ _ _ e) <= 100;
+      rd_cum_pre : d_irr_cum (e_pre _ _ _ e) <= i_MaxIrrSeason (p_irr par);
+      rd_cum_post : d_irr_cum (e_post _ _ _ e) <= i_MaxIrrSeason (p_irr par);
+      rd_fluxes : fluxes_row par (e_season _ _ _ e) (e_row _ _ _ e);
+      rd_surface : surface_row par (e_season _ _ _ e) (e_gs _ _ _ e) (e_w _ _ _ e) (e_pre _ _ _ e) (e_row _ _ _ e);
+      rd_irrigation : irrigation_row par (e_season _ _ _ e) (e_gs _ _ _ e) (e_dap _ _ _ e) (e_tsc _ _ _ e) (e_w _ _ _ e) (e_pre _ _ _ e)
+                                     (e_post _ _ _ e) (e_row _ _ _ e);
+      rd_totals : totals_row par (e_season _ _ _ e) (e_gs _ _ _ e) (e_pre _ _ _ e) (e_post _ _ _ e) (e_row _ _ _ e);
+      rd_gdd : gdd_row par (e_season _ _ _ e) (e_gs _ _ _ e) (e_pre _ _ _ e) (e_post _ _ _ e) (e_row _ _ _ e);
+      rd_yield : yield_row par crops (e_season _ _ _ e) (e_gs _ _ _ e) (e_w _ _ _ e) (e_pre _ _ _ e) (e_post _ _ _ e) (e_row _ _ _ e);
+      rd_groundwater : groundwater_row par (e_w _ _ _ e) (e_pre _ _ _ e) (e_post _ _ _ e) (e_row _ _ _ e) }.
+
+    Lemma inv_rows_day (e : EvC) :
+      is_day_c e -> (e_gs _ _ _ e = true -> (0 <= e_season _ _ _ e)%Z) -> WP (e_w _ _ _ e) ->
+      RowsInv (e_pre _ _ _ e) -> RowsInv (e_post _ _ _ e) /\ rows_day e.
+    Proof.
+      intros Hd Hgs Hw (Hi & Hpct & Hcum). pose proof (is_day_opt par crops e Hd) as H.
+      destruct e as [season gs dap tsc w s s' row]. cbn [e_season e_gs e_dap e_tsc e_w e_pre e_post e_row] in *.
+      pose proof (Inv_dayinv _ Hi) as DI. pose proof (WP_rain _ Hw) as Hr. pose proof (cn_ok_sel par season gs Hcn) as Hc.
+      pose proof (fun Rs HRs => Inv_side season gs dap tsc w s Rs Hi Hw HRs) as Side.
+      pose proof (day_fluxes_concrete _ _ _ _ _ _ _ _ _ _ DI Hr Hc H Side) as T1.
+      pose proof (day_surface_concrete _ _ _ _ _ _ _ _ _ _ DI Hr Hc H) as T2.
+      pose proof (day_irrigation_concrete _ _ _ _ _ _ _ _ _ _ H) as T3.
+      pose proof (day_irr_totals_concrete _ _ _ _ _ _ _ _ _ _ H) as T4.
+      pose proof (day_gdd_concrete _ _ _ _ _ _ _ _ _ _ H) as T5.
+      pose proof (day_yield_concrete _ _ _ _ _ _ _ _ _ _ H) as T6.
+      pose proof (day_groundwater_concrete _ _ _ _ _ _ _ _ _ _ DI H) as T7.
+      (* the seasonal counter after the day *)
+      assert (Hcum' : d_irr_cum s' <= i_MaxIrrSeason (p_irr par)).
+      { cbv zeta in T3. destruct T3 as (A1 & _ & _ & A4 & _).
+        destruct gs.
+        - specialize (Hgs eq_refl). unfold sel_irr in A4. apply Z.leb_le in Hgs. rewrite Hgs in A4. exact (A4 Hmaxseason Hcum).
+        - destruct (A1 eq_refl) as [_ ->]. exact Hmaxseason. }
+      assert (Hpct' : 0 <= d_pct_lag_phase s' <= 100).
+      { cbv zeta in T6. destruct T6 as (_ & _ & _ & _ & _ & _ & _ & _ & A9 & _). exact (A9 Hpct). }
+      split.
+      - split; [exact (Inv_step _ _ _ _ _ _ _ _ Hi Hw H)|]. split; [exact Hpct'|exact Hcum'].
+      - constructor; cbn [e_season e_gs e_dap e_tsc e_w e_pre e_post e_row];
+          [exact Hgs | exact Hpct | exact Hcum | exact Hcum' | exact T1 | exact T2 | exact T3 | exact T4 | exact T5 | exact T6 | ].
+        cbv zeta in T7. destruct T7 as (B1 & B2 & B3 & B4 & B5 & B6).
+        unfold groundwater_row. cbv zeta. repeat (split; [assumption|]). intros W1. exact (B6 W1 Side).
+    Qed.
+
+    (* in-season events have a season index >= 0 (Clock.in_season) *)
+    Lemma event_gs_season c w (st : St (DState R)) :
+      e_gs _ _ _ (eventc c w st) = true -> (0 <= e_season _ _ _ (eventc c w st))%Z.
+    Proof.
+      cbn [event_of e_gs e_season]. unfold in_season. destruct (0 <=? season st)%Z eqn:E; [|discriminate].
+      intros _. apply Z.leb_le. exact E.
+    Qed.
+
+    Lemma reset_rows_inv k ws s : RowsInv s -> RowsInv (reset par k ws s).
+    Proof.
+      intros (Hi & _ & _). split; [exact (Inv_reset k ws s Hi)|]. cbn [reset d_pct_lag_phase d_irr_cum]. rnum.
+      split; [lra | exact Hmaxseason].
+    Qed.
+
+    (* the induction over the days of a run (RunP.reach_inv, with the season-index fact of the clock) *)
+    Lemma reach_rows_inv c ws m0 evs m : weather_ok _ WP ws -> RowsInv (phys (st m0)) -> ReachC c ws m0 evs m ->
+      RowsInv (phys (st m)) /\ Forall (fun e => RowsInv (e_pre _ _ _ e) /\ RowsInv (e_post _ _ _ e) /\ rows_day e) evs.
+    Proof.
+      intros Hws H0. induction 1 as [|evs m m' w HR [IH1 IH2] Ew Ed Hp]; [split; [exact H0|constructor]|].
+      destruct (perform_event _ _ _ _ _ _ _ _ _ c ws m m' w Ew Hp) as [_ Hc]. cbv zeta in Hc.
+      pose proof (event_is_day _ _ _ procc dead defc c w (st m) Ed) as Hd.
+      assert (Hpre : RowsInv (e_pre _ _ _ (eventc c w (st m)))) by exact IH1.
+      assert (Hw : WP (e_w _ _ _ (eventc c w (st m)))) by (exact (Hws _ _ Ew)).
+      destruct (inv_rows_day _ Hd (event_gs_season c w (st m)) Hw Hpre) as [Hpost HQ].
+      split.
+      - destruct Hc as [-> | ->]; [exact Hpost | apply reset_rows_inv; exact Hpost].
+      - constructor; [split; [exact Hpre|split; [exact Hpost|exact HQ]] | exact IH2].
+    Qed.
+
+    (* the whole-run statements: for a run by step counts ... *)
+    Theorem run_steps_rows c ws k m0 m' :
+      weather_ok _ WP ws -> RowsInv (phys (st m0)) -> run_steps_c par crops c ws k m0 = GOk m' ->
+      exists evs : list EvC,
+        ReachC c ws m0 evs m' /\ RowsInv (phys (st m')) /\
+        Forall (fun e => is_day_c e /\ RowsInv (e_pre _ _ _ e) /\ RowsInv (e_post _ _ _ e) /\ rows_day e) evs /\
+        chained _ _ _ (reset par) ws (phys (st m')) evs /\
+        rows (tabs m') = map (fun e => (e_tsc _ _ _ e, e_row _ _ _ e)) evs ++ rows (tabs m0).
+    Proof.
+      intros Hws H0 H. unfold run_steps_c in H.
+      destruct (run_steps_g_reach _ _ _ _ _ _ _ _ _ _ c ws k m0 [] m0 m' (Reach_nil _ _ _ _ _ _ _ _ _ _ c ws m0) H) as [evs HR].
+      rewrite app_nil_r in HR. exists evs. destruct (reach_rows_inv c ws m0 evs m' Hws H0 HR) as [A B].
+      split; [exact HR|]. split; [exact A|]. split; [|split].
+      - pose proof (reach_days _ _ _ _ _ _ _ _ _ _ _ _ _ _ _ HR) as D. rewrite Forall_forall in *. intros e He.
+        split; [apply D; exact He | apply B; exact He].
+      - exact (proj1 (reach_chained _ _ _ _ _ _ _ _ _ _ _ _ _ _ _ HR)).
+      - exact (reach_rows _ _ _ _ _ _ _ _ _ _ _ _ _ _ _ HR).
+    Qed.
+
+    (* ... and for a run to termination *)
+    Theorem run_till_rows c ws fuel m0 m' :
+      weather_ok _ WP ws -> RowsInv (phys (st m0)) -> run_till_c par crops c ws fuel m0 = Some (GOk m') ->
+      exists evs : list EvC,
+        ReachC c ws m0 evs m' /\ RowsInv (phys (st m')) /\
+        Forall (fun e => is_day_c e /\ RowsInv (e_pre _ _ _ e) /\ RowsInv (e_post _ _ _ e) /\ rows_day e) evs /\
+        chained _ _ _ (reset par) ws (phys (st m')) evs /\
+        rows (tabs m') = map (fun e => (e_tsc _ _ _ e, e_row _ _ _ e)) evs ++ rows (tabs m0).
+    Proof.
+      intros Hws H0 H. unfold run_till_c in H.
+      destruct (run_till_g_reach _ _ _ _ _ _ _ _ _ _ c ws fuel m0 [] m0 m' (Reach_nil _ _ _ _ _ _ _ _ _ _ c ws m0) H) as [evs HR].
+      rewrite app_nil_r in HR. exists evs. destruct (reach_rows_inv c ws m0 evs m' Hws H0 HR) as [A B].
+      split; [exact HR|]. split; [exact A|]. split; [|split].
+      - pose proof (reach_days _ _ _ _ _ _ _ _ _ _ _ _ _ _ _ HR) as D. rewrite Forall_forall in *. intros e He.
+        split; [apply D; exact He | apply B; exact He].
+      - exact (proj1 (reach_chained _ _ _ _ _ _ _ _ _ _ _ _ _ _ _ HR)).
+      - exact (reach_rows _ _ _ _ _ _ _ _ _ _ _ _ _ _ _ HR).
+    Qed.
+  End WithInv.
+End RunRows.
+
+(* ============================================================================================================ *)
+(*  Part E: the hypotheses are satisfiable (instance of DayP.Ex / DayConcreteP.day_inv_satisfiable); assumptions    *)
+(* ============================================================================================================ *)
+(* curve number 61 without management adjustment; 5 mm rain; ET0 = 4 mm; seasonal maximum 10000 mm *)
+Example cn_ok_satisfiable : cn_ok Ex.par0.
+Proof. unfold cn_ok, cn_ok_field, RainIrrR.cn_mgmt. cbn. lra. Qed.
+
+(* hypotheses of day_fluxes_noside_concrete / day_fluxes_concrete / day_surface_concrete (C04, C02), for a day in and a day
+   outside the season *)
+Example day_fluxes_hypotheses_satisfiable :
+  DayInv Ex.par0 Ex.zeroS /\ 0 <= w_rain Ex.w0 /\
+  cn_ok_field Ex.par0 (sel_field Ex.par0 0 true) /\ cn_ok_field Ex.par0 (sel_field Ex.par0 0 false).
+Proof.
+  split; [exact day_inv_satisfiable|]. split; [cbn; lra|].
+  split; apply cn_ok_sel; exact cn_ok_satisfiable.
+Qed.
+Example day_surface_hypotheses_satisfiable :
+  DayInv Ex.par0 Ex.zeroS /\ 0 <= w_rain Ex.w0 /\ cn_ok_field Ex.par0 (sel_field Ex.par0 0 true).
+Proof. destruct day_fluxes_hypotheses_satisfiable as (A & B & C & _). auto. Qed.
+
+(* day_irrigation_concrete / day_irr_totals_concrete / day_gdd_concrete have no hypothesis besides the defined day; the
+   premises of their items hold for the instance: daily and seasonal maxima >= 0, counter within the maximum, Tbase <= Tupp *)
+Example day_irrigation_premises_satisfiable :
+  let irr := sel_irr Ex.par0 0 in
+  0 <= i_MaxIrr irr /\ 0 <= i_MaxIrrSeason irr /\ d_irr_cum Ex.zeroS <= i_MaxIrrSeason irr.
+Proof. cbn. lra. Qed.
+Example day_gdd_premises_satisfiable : c_Tbase (sel_crop Ex.par0 0) <= c_Tupp (sel_crop Ex.par0 0).
+Proof. cbn. lra. Qed.
+(* day_yield_concrete: PctLagPhase within [0,100] before the day, ET0 > 0 *)
+Example day_yield_premises_satisfiable : 0 <= d_pct_lag_phase Ex.zeroS <= 100 /\ 0 < w_et0 Ex.w0.
+Proof. cbn. lra. Qed.
+(* day_groundwater_concrete: the invariant; the instance has no water table *)
+Example day_groundwater_hypotheses_satisfiable : DayInv Ex.par0 Ex.zeroS /\ p_water_table Ex.par0 = 0%Z.
+Proof. split; [exact day_inv_satisfiable | reflexivity]. Qed.
+(* run level: the static hypotheses and the part of RowsInv that this file adds to the caller's invariant *)
+Example run_rows_hypotheses_satisfiable :
+  cn_ok Ex.par0 /\ 0 <= i_MaxIrrSeason (p_irr Ex.par0) /\
+  RowsInv Ex.par0 (DayInv Ex.par0) Ex.zeroS /\ (forall s, DayInv Ex.par0 s -> DayInv Ex.par0 s) /\
+  (forall k ws s, DayInv Ex.par0 s -> DayInv Ex.par0 (reset Ex.par0 k ws s)).
+Proof.
+  split; [exact cn_ok_satisfiable|]. split; [cbn; lra|]. split; [|split; [auto | intros; apply reset_inv_preserved; assumption]].
+  split; [exact day_inv_satisfiable|]. cbn. lra.
+Qed.
+
+Print Assumptions day_fluxes_noside_concrete.
+Print Assumptions day_fluxes_concrete.
+Print Assumptions day_surface_concrete.
+Print Assumptions day_irrigation_concrete.
+Print Assumptions day_irr_totals_concrete.
+Print Assumptions day_gdd_concrete.
+Print Assumptions day_yield_concrete.
+Print Assumptions day_groundwater_concrete.
+Print Assumptions inv_rows_day.
+Print Assumptions run_steps_rows.
+Print Assumptions run_till_rows.
